@@ -369,6 +369,62 @@ def consulted (fs : Files) (st : ConfigState) : List Look → List String
     | (_, some _) => [l.path]
     | (st', none) => l.path :: consulted fs st' ls
 
+/-! ## Histories: objects that persist, an environment that changes between calls -/
+
+/-- `Config.init()` called on an existing object `st`, under the environment `e` **as it is when the
+    call runs** (`os.getenv` inside `init` / `get_platform_paths`), whatever the environment was when
+    the object was built (`Config.__init__`, for the module singleton: at import) or at any earlier
+    call. With `$PYPYR_SKIP_INIT` the only effect is `_skip_init = True` (never reset afterwards);
+    otherwise the look-ups of `lookOrder e` are merged into the object as it is. -/
+def initOn (st : ConfigState) (e : Env) (fs : Files) : Outcome :=
+  if e.skip then ({ st with skipInit := true }, none) else runLooks fs st (lookOrder e)
+
+/-- One step of a process's history with `Config` objects. Object `0` is the module singleton
+    `pypyr.config.config` (constructed when `pypyr.config` is imported); each step carries the
+    environment at the moment it runs. -/
+inductive Op where
+  | construct (obj : Nat) (e : Env)      -- `obj = Config()`
+  | init (obj : Nat) (e : Env)           -- `obj.init()`
+  deriving Repr
+
+abbrev Objs := List (Nat × ConfigState)
+
+def objGet? : Objs → Nat → Option ConfigState
+  | [], _ => none
+  | (n, st) :: rest, k => if n = k then some st else objGet? rest k
+
+def objSet : Objs → Nat → ConfigState → Objs
+  | [], k, st => [(k, st)]
+  | (n, s) :: rest, k, st => if n = k then (n, st) :: rest else (n, s) :: objSet rest k st
+
+/-- What one step shows: the object afterwards (`none`: no such object), the exception raised, the
+    `handle_path` calls made. -/
+structure StepObs where
+  obj : Nat
+  state : Option ConfigState
+  err : Option CfgErr
+  consulted : List String
+  deriving Repr, DecidableEq
+
+def stepOp (fs : Files) (objs : Objs) : Op → Objs × StepObs
+  | .construct o e => (objSet objs o (defaults e), ⟨o, some (defaults e), none, []⟩)
+  | .init o e =>
+    match objGet? objs o with
+    | none => (objs, ⟨o, none, none, []⟩)
+    | some st =>
+      let r := initOn st e fs
+      (objSet objs o r.1, ⟨o, some r.1, r.2, consulted fs st (initOrder e)⟩)
+
+/-- The objects after a history. -/
+def objsAfter (fs : Files) : Objs → List Op → Objs
+  | objs, [] => objs
+  | objs, op :: ops => objsAfter fs (stepOp fs objs op).1 ops
+
+/-- The observations of a history, step by step. -/
+def runOps (fs : Files) : Objs → List Op → List StepObs
+  | _, [] => []
+  | objs, op :: ops => (stepOp fs objs op).2 :: runOps fs (stepOp fs objs op).1 ops
+
 /-! ## Reading a state -/
 
 def ConfigState.scalar? (st : ConfigState) (k : String) : Option Val := Ctx.get? st.scalars k
